@@ -8,7 +8,7 @@ def main():
         env = dict(os.environ)
         env['PYTHONHASHSEED'] = '0'
         root = os.path.dirname(os.path.dirname(os.path.abspath(__file__)))
-        env['PYTHONPATH'] = os.pathsep.join([root, '/repo'] + ([env['PYTHONPATH']] if env.get('PYTHONPATH') else []))
+        env['PYTHONPATH'] = os.pathsep.join([root, os.environ.get('VERIF_REPO', '/repo')] + ([env['PYTHONPATH']] if env.get('PYTHONPATH') else []))
         env.setdefault('OMP_NUM_THREADS', '1')
         env.setdefault('OPENBLAS_NUM_THREADS', '1')
         env.setdefault('MKL_NUM_THREADS', '1')
